@@ -43,6 +43,7 @@ struct Cx<'a, 'tcx> {
 fn body_json<'tcx>(tcx: TyCtxt<'tcx>, did: rustc_hir::def_id::DefId, body: &Body<'tcx>) -> J {
     let mut j = J::obj();
     j.set("path", J::s(dpath(tcx, did)));
+    j.set("dp", J::s(tcx.def_path(did).to_string_no_crate_verbose()));
     let dk = tcx.def_kind(did);
     j.set("dk", J::s(format!("{:?}", dk)));
     j.set("file", J::s(span_file(tcx, body.span)));
